@@ -1,11 +1,15 @@
-import RreModel.C04.Lemmas
+import RreModel.C04.MaskLemmas
 /-
 C04 — property theorems (only).  "Parsing GRL yields exactly the rules that were written."
 The statements quantify over every condition tree, every admissible layout of it (`LT`: any white
 space around every token, redundant parentheses anywhere) and every leaf parser.  Leaf texts are
 restricted by `LeafOk` (balanced parentheses, no `&`/`|`, trimmed, not starting like a structural
-form) — the hypothesis "string literals are metacharacter-free"; the `…_counterexample`s show that
-each excluded case really fails in the model (replayed on the implementation: findings F-C04b).
+form).  Since the literal masking (fix F-C04b) every entry point runs the pipeline on `mask text`:
+the `…_strlit_opaque` theorems lift the round trips to leaf / statement texts whose string literals
+have ARBITRARY bodies (`OpaqueLeaf`, `OpaqueStmt`: only the literal's own quote character and a line
+break are excluded) — `LeafOk` is then required of the text with *emptied* literals only.  The
+`…_counterexample`s are statements about the pipeline *without* the masking (the pre-fix parser): each
+case excluded by `LeafOk` really failed there (replayed on the unfixed implementation: F-C04b).
 -/
 namespace C04
 
@@ -65,72 +69,186 @@ theorem parseThen_render (P : Str → Except Err β) (xs : List (Str × Str × S
     parseThenWith P (renderStmts xs w) = (xs.map (·.2.1)).mapM P := by
   unfold parseThenWith; rw [statements_render xs w hw hx]
 
-/-- the full literal round trip: every literal class of the grammar (kept as a statement; the
-integer and float classes are exercised by the correspondence check, incl. the i64 extremes) -/
+/-- the full literal round trip: every literal class of the grammar (kept as a statement; the float
+class is a parameter of the model and is exercised by the correspondence check) -/
 def parseValue_renderLit_full (X : Ext) : Prop :=
-  (∀ (q : Char) (s : Str), (q = '"' ∨ q = '\'') → parseValue X (q :: s ++ [q]) = .str s)
-  ∧ (∀ i : Int, -9223372036854775808 ≤ i → i ≤ 9223372036854775807 → parseValue X (intShow i) = .int i)
-  ∧ parseValue X "true".toList = .bool true ∧ parseValue X "false".toList = .bool false
-  ∧ parseValue X "null".toList = .null
+  (∀ (q : Char) (s : Str), (q = '"' ∨ q = '\'') → (∀ c ∈ s, c ≠ q ∧ c ≠ '\n') →
+      parseValue X (lits (q :: s ++ [q])) (mask (q :: s ++ [q])) = .str s)
+  ∧ (∀ (T : List Str) (i : Int), -9223372036854775808 ≤ i → i ≤ 9223372036854775807 → parseValue X T (intShow i) = .int i)
+  ∧ (∀ T, parseValue X T "true".toList = .bool true ∧ parseValue X T "false".toList = .bool false
+      ∧ parseValue X T "null".toList = .null)
 
-/-- **Literals (partial).** A quoted string that does not contain its own quote character is that
-string, whatever else it contains (spaces, operators, comment markers, non-ASCII text, digits …);
-`true`, `false`, `null` are the constants. -/
-theorem parseValue_renderLit_partial (X : Ext) :
-    (∀ (q : Char) (s : Str), (q = '"' ∨ q = '\'') → (∀ c ∈ s, c ≠ q) → parseValue X (q :: s ++ [q]) = .str s)
-    ∧ parseValue X "true".toList = .bool true ∧ parseValue X "false".toList = .bool false
-    ∧ parseValue X "null".toList = .null := by
-  refine ⟨?_, rfl, rfl, rfl⟩
-  intro q s hq hs
+theorem mask_literal (q : Char) (s : Str) (hq : q = '"' ∨ q = '\'') (hs : ∀ c ∈ s, c ≠ q ∧ c ≠ '\n') :
+    mask (q :: s ++ [q]) = q :: maskBodyAt 0 s ++ [q] ∧ lits (q :: s ++ [q]) = (if s.isEmpty then [] else [s]) := by
+  have := maskGo_lit q hq s [] 0 hs
+  constructor
+  · simpa [mask, maskGo] using this.1
+  · simpa [lits, litsGo] using this.2
+
+/-- **String literals are opaque (values).** A quoted string — ANY body that does not contain the
+literal's own quote character or a line break: spaces, operators, braces, `;`, `&&`, ` then `, comment
+markers, the other quote character, placeholder look-alikes, non-ASCII text … — goes through
+`mask_string_literals` and `parse_value` (which unmasks with the table) to exactly that string. -/
+theorem parseValue_strlit_opaque (X : Ext) (q : Char) (s : Str) (hq : q = '"' ∨ q = '\'')
+    (hs : ∀ c ∈ s, c ≠ q ∧ c ≠ '\n') :
+    parseValue X (lits (q :: s ++ [q])) (mask (q :: s ++ [q])) = .str s := by
+  obtain ⟨hm, hl⟩ := mask_literal q s hq hs
+  rw [hm, hl]
+  generalize hT : (if s.isEmpty then ([] : List Str) else [s]) = T
   have hqw : isWs q = false := by rcases hq with rfl | rfl <;> rfl
-  have hed : Edges (q :: s ++ [q]) :=
+  have hed : Edges (q :: maskBodyAt 0 s ++ [q]) :=
     ⟨⟨q, rfl, hqw⟩, ⟨q, getLast_append_some _ _ q rfl, hqw⟩⟩
-  have hnb : ((q :: s ++ [q]).head? == some '[') = false := by
+  have hnb : ((q :: maskBodyAt 0 s ++ [q]).head? == some '[') = false := by
     rcases hq with rfl | rfl <;> simp
-  have hmem : q ∉ s := fun hm => hs q hm rfl
-  have hinner : ((q :: s ++ [q]).drop 1).dropLast = s := by simp [List.dropLast_concat]
-  have hlast : (q :: s ++ [q]).getLast? = some q := getLast_append_some _ _ q rfl
-  have hlen : (q :: s ++ [q]).length ≥ 2 := by simp
-  have key : parseScalar X (q :: s ++ [q]) = .str s := by
+  have hmem : q ∉ maskBodyAt 0 s := by
+    intro hm
+    have := (maskBodyAt_mem hm).ne
+    rcases hq with rfl | rfl
+    · exact this.2.2.2.2.2.1 rfl
+    · exact this.2.2.2.2.2.2.1 rfl
+  have hinner : ((q :: maskBodyAt 0 s ++ [q]).drop 1).dropLast = maskBodyAt 0 s := by simp
+  have hlast : (q :: maskBodyAt 0 s ++ [q]).getLast? = some q := getLast_append_some _ _ q rfl
+  have hun : unmask T (maskBodyAt 0 s) = s := by
+    have := unmask_maskBodyAt T 0 s [] (by
+      intro hne; rw [← hT]
+      cases s with
+      | nil => exact absurd rfl hne
+      | cons c cs => rfl)
+    simpa [unmask_nil] using this
+  have key : parseScalar X T (q :: maskBodyAt 0 s ++ [q]) = .str s := by
     unfold parseScalar
-    simp only [hinner, hlast]
+    simp only [hinner, hlast, hun]
     rcases hq with rfl | rfl
     · simp [hmem]
     · simp [hmem]
   unfold parseValue
-  cases hf : (q :: s ++ [q]).length with
+  cases hf : (q :: maskBodyAt 0 s ++ [q]).length with
   | zero => simp at hf
   | succ n =>
     simp only [parseValueF]
     rw [trim_self hed, hnb]
     simpa using key
 
-/-- a string literal that contains its own quote character is not read back as written -/
+/-- **Integer literals.** The decimal rendering of every `i64` (`i64::to_string`: optional `-`, digits,
+no leading zeros) is read back by `parse_value` as that integer — including `i64::MIN` and `i64::MAX`. -/
+theorem parseValue_int_roundtrip (X : Ext) (T : List Str) (i : Int)
+    (hlo : -9223372036854775808 ≤ i) (hhi : i ≤ 9223372036854775807) : parseValue X T (intShow i) = .int i :=
+  parseValue_intShow X T i hlo hhi
+
+/-- **Literals: every class of the grammar but floats** (floats are a parameter of the model: `Ext.parseF64`):
+`parseValue_renderLit_full` holds for every `X`. -/
+theorem parseValue_renderLit (X : Ext) : parseValue_renderLit_full X :=
+  ⟨fun q s hq hs => parseValue_strlit_opaque X q s hq hs, fun T i hlo hhi => parseValue_int_roundtrip X T i hlo hhi,
+    fun _ => ⟨rfl, rfl, rfl⟩⟩
+
+/-- (the former partial statement, kept under its name: strings and constants) -/
+theorem parseValue_renderLit_partial (X : Ext) :
+    (∀ (q : Char) (s : Str), (q = '"' ∨ q = '\'') → (∀ c ∈ s, c ≠ q ∧ c ≠ '\n') →
+      parseValue X (lits (q :: s ++ [q])) (mask (q :: s ++ [q])) = .str s)
+    ∧ (∀ T, parseValue X T "true".toList = .bool true ∧ parseValue X T "false".toList = .bool false
+        ∧ parseValue X T "null".toList = .null) :=
+  ⟨(parseValue_renderLit X).1, (parseValue_renderLit X).2.2⟩
+
+example : parseValue ⟨fun _ => none, fun _ => 0, fun _ => [], fun _ => none⟩ [] (intShow (-9223372036854775808))
+    = .int (-9223372036854775808) := parseValue_int_roundtrip _ _ _ (by decide) (by decide)
+
+/-- the hypothesis "not the own quote character" cannot be dropped: `"a" + "b"` is not one literal -/
 theorem parseValue_string_counterexample :
-    ¬ parseValue_renderLit_full ⟨fun _ => none, fun _ => 0, fun _ => [], fun _ => none⟩ := by
+    parseValue ⟨fun _ => none, fun _ => 0, fun _ => [], fun _ => none⟩ (lits "\"a\" + \"b\"".toList) (mask "\"a\" + \"b\"".toList)
+      ≠ .str "a\" + \"b".toList := by
   intro h
-  have := congrArg Value.strText (h.1 '"' "a\" + \"b".toList (Or.inl rfl))
+  have := congrArg Value.strText h
   revert this
   decide +kernel
 
-/-- the statement of the round trip without the hypothesis on leaf texts: every trimmed text that
-does not start like a structural form is an opaque leaf -/
+/-- **`unmask` inverts `mask_string_literals`** on every text made of code (no quote character, no
+`MASK_START`) and string literals with arbitrary bodies: with the table `lits text`, the masked text
+unmasks to the text. -/
+theorem unmask_mask_strlit (l : List Seg) (h : ∀ x ∈ l, x.Ok) :
+    unmask (lits (renderSegs l)) (mask (renderSegs l)) = renderSegs l :=
+  unmask_mask_segs l h
+
+/-- the masked text of a padded condition: the padding is untouched, the tree is masked from offset 0,
+and the table is the table of the tree -/
+theorem mask_padded (t : LT) (h : t.WFo) (a b : Str) (ha : Ws a) (hb : Ws b) :
+    mask (a ++ t.render ++ b) = a ++ (t.maskAt 0).render ++ b ∧ lits (a ++ t.render ++ b) = lits t.render := by
+  have p := ((Piece.code ha.quoteFree).append (LT.render_masked t h)).append (Piece.code hb.quoteFree)
+  constructor
+  · have := p.2.1 0; unfold mask; rw [this]; simp
+  · rw [p.2.2]; simp
+
+/-- **String literals are opaque (conditions).** The round trip of `parse_when_clause` for condition
+trees whose leaf texts contain string literals with ARBITRARY bodies (`OpaqueLeaf`): the text is masked
+(as every entry point does), parsed, and the tree that was written comes back, the leaf parser seeing
+the masked leaf texts (`t.maskAt 0`: every literal body replaced by its placeholder) — `}`, `&&`, `||`,
+` then `, unbalanced parentheses, `!` … inside a literal are never structure. -/
+theorem parseWhen_render_strlit_opaque (A : Str → Except Err α) (g : Str → α) (t : LT) (h : t.WFo)
+    (hA : ∀ s ∈ (t.maskAt 0).leaves, A s = .ok (g s)) (a b : Str) (ha : Ws a) (hb : Ws b) :
+    parseWhen A (mask (a ++ t.render ++ b)) = .ok ((t.maskAt 0).sem.map g) := by
+  rw [(mask_padded t h a b ha hb).1]
+  exact parseWhen_render A g (t.maskAt 0) (LT.WFo.masked t h 0) hA a b ha hb
+
+/-- … and with the leaf parser that just unmasks with the table of the text (what `parse_value` and the
+other leaf sites do), the tree comes back with the leaf texts exactly as written, literal bodies intact. -/
+theorem parseWhen_strlit_opaque_unmask (t : LT) (h : t.WFo) (a b : Str) (ha : Ws a) (hb : Ws b) :
+    parseWhen (fun m => .ok (unmask (lits (a ++ t.render ++ b)) m)) (mask (a ++ t.render ++ b)) = .ok t.sem := by
+  rw [parseWhen_render_strlit_opaque _ (unmask (lits (a ++ t.render ++ b))) t h (fun _ _ => rfl) a b ha hb]
+  have := LT.sem_unmask t h (lits (a ++ t.render ++ b)) [] [] (by rw [(mask_padded t h a b ha hb).2]; simp)
+  rw [show ([] : List Str).length = 0 from rfl] at this
+  rw [this]
+
+/-- **String literals are opaque (actions).** The round trip of `parse_then_clause` for statements whose
+string literals have ARBITRARY bodies (`OpaqueStmt`): after masking, the statements found are exactly
+the masked statements, in order — a `;` inside a literal is not a separator — and each unmasks (with
+the table of the text) to the statement as written. -/
+theorem parseThen_render_strlit_opaque (P : Str → Except Err β) (xs : List (Str × Str × Str)) (w : Str) (hw : Ws w)
+    (hx : ∀ x ∈ xs, Ws x.1 ∧ Ws x.2.2 ∧ OpaqueStmt x.2.1) :
+    parseThenWith P (mask (renderStmts xs w)) = ((maskStmtsAt 0 xs).map (·.2.1)).mapM P
+    ∧ (maskStmtsAt 0 xs).map (fun x => unmask (lits (renderStmts xs w)) x.2.1) = xs.map (·.2.1) := by
+  have p := renderStmts_masked xs w hw hx
+  constructor
+  · have hm : mask (renderStmts xs w) = renderStmts (maskStmtsAt 0 xs) w := p.2.1 0
+    rw [hm]
+    apply parseThen_render P (maskStmtsAt 0 xs) w hw
+    -- every masked statement is trimmed and `;`-free, with the same padding
+    have key : ∀ (ys : List (Str × Str × Str)) (n : Nat), (∀ x ∈ ys, Ws x.1 ∧ Ws x.2.2 ∧ OpaqueStmt x.2.1) →
+        ∀ y ∈ maskStmtsAt n ys, Ws y.1 ∧ Ws y.2.2 ∧ Edges y.2.1 ∧ ∀ c ∈ y.2.1, c ≠ ';' := by
+      intro ys
+      induction ys with
+      | nil => intro n _ y hy; simp [maskStmtsAt] at hy
+      | cons x xs' ih =>
+        intro n hx' y hy
+        obtain ⟨a, s, b⟩ := x
+        simp only [maskStmtsAt, List.mem_cons] at hy
+        obtain ⟨h1, h2, h3⟩ := hx' (a, s, b) (by simp)
+        rcases hy with rfl | hy
+        · exact ⟨h1, h2, (h3.masked.2.1 n).1, (h3.masked.2.1 n).2⟩
+        · exact ih _ (fun z hz => hx' z (by simp [hz])) y hy
+    exact key xs 0 hx
+  · have := maskStmtsAt_unmask xs (fun x hxm => (hx x hxm).2.2) (lits (renderStmts xs w)) [] [] (by rw [p.2.2]; simp)
+    simpa using this
+
+/-! ### the pipeline without the masking (the parser before fix F-C04b) -/
+
+/-- the statement of the round trip of the *unmasked* pipeline without the hypothesis on leaf texts:
+every trimmed text that does not start like a structural form is an opaque leaf -/
 def parseWhen_leaf_full : Prop :=
   ∀ s : Str, Edges s → s.head? ≠ some '(' → s.head? ≠ some '!' → parseWhen (fun x => .ok x) s = .ok (.single s)
 
-/-- F-C04b: a string literal containing `&&` is split — the leaf `x == "a && b"` comes back as a conjunction -/
+/-- F-C04b (pre-fix pipeline): a string literal containing `&&` is split — the leaf `x == "a && b"` comes
+back as a conjunction; with the masking it is one leaf (`strlit_examples`) -/
 theorem parseWhen_strlit_and_counterexample : ¬ parseWhen_leaf_full := by
   intro h
   have := h "x == \"a && b\"".toList ⟨⟨'x', rfl, rfl⟩, ⟨'"', rfl, rfl⟩⟩ (by decide) (by decide)
   revert this
   decide +kernel
 
-/-- F-C04b: an unbalanced parenthesis inside a string literal hides a following `&&` -/
+/-- F-C04b (pre-fix pipeline): an unbalanced parenthesis inside a string literal hides a following `&&` -/
 theorem parseWhen_strlit_paren_counterexample :
     parseWhen (fun x => Except.ok x) "x == \"(\" && y == 1".toList = .ok (.single "x == \"(\" && y == 1".toList) := by
   decide +kernel
 
-/-- F-C04b: a string literal containing `;` is cut in two statements -/
+/-- F-C04b (pre-fix pipeline): a string literal containing `;` is cut in two statements -/
 theorem parseThen_strlit_semicolon_counterexample :
     statements "Y = \"a;b\";".toList = ["Y = \"a".toList, "b\"".toList] := by
   decide +kernel
@@ -145,21 +263,83 @@ theorem prefix_salience_negative_counterexample :
     ∧ extractSalience "salience 2147483648 ".toList = .error .parse := by
   decide +kernel
 
-/-- every attribute in every order: kept as a statement (exercised exhaustively by the correspondence
-check over all 128 attribute subsets in shuffled orders; not proved) -/
+/-- the other attributes that may stand before and after `salience … agenda-group "…"` -/
+inductive OAttr where
+  | noLoop | lockOnActive | activationGroup (g : Str)
+
+def OAttr.render : OAttr → Str
+  | .noLoop => "no-loop ".toList
+  | .lockOnActive => "lock-on-active ".toList
+  | .activationGroup g => "activation-group \"".toList ++ g ++ "\" ".toList
+
+def OAttr.Ok : OAttr → Prop
+  | .activationGroup g => g ≠ [] ∧ ∀ c ∈ g, c ≠ '"' ∧ c ≠ '\n'
+  | _ => True
+
+/-- every attribute in every order (kept as a statement; NOT proved — exercised exhaustively by the
+correspondence check over all 128 attribute subsets in shuffled orders).  The header goes through the
+masking like every text, so group names are arbitrary (also `salience 9`, `agenda-group `, `{`). -/
 def attributes_any_order_full (X : Ext) : Prop :=
-  ∀ (sal : Int) (g : Str) (pre post : Str), -2147483648 ≤ sal → sal ≤ 2147483647 →
-    (∀ c ∈ g, c ≠ '"') → g ≠ [] →
-    extractSalience (pre ++ "salience ".toList ++ intShow sal ++ " agenda-group \"".toList ++ g ++ "\" ".toList ++ post) = .ok sal
-    ∧ (parseAttrs X (pre ++ "salience ".toList ++ intShow sal ++ " agenda-group \"".toList ++ g ++ "\" ".toList ++ post)).map (·.agendaGroup) = .ok (some g)
+  ∀ (sal : Int) (g : Str) (ps qs : List OAttr), -2147483648 ≤ sal → sal ≤ 2147483647 →
+    (∀ c ∈ g, c ≠ '"' ∧ c ≠ '\n') → g ≠ [] → (∀ a ∈ ps ++ qs, a.Ok) →
+    let header := ps.flatMap OAttr.render ++ "salience ".toList ++ intShow sal ++ " agenda-group \"".toList ++ g ++ "\" ".toList
+      ++ qs.flatMap OAttr.render
+    extractSalience (mask header) = .ok sal
+    ∧ (parseAttrs X (lits header) (mask header)).map (·.agendaGroup) = .ok (some g)
 
 /-! ### non-vacuity: concrete instances meeting the hypotheses -/
+
+instance (s : Str) : Decidable (Edges s) := by unfold Edges; infer_instance
+
+/-- the witnesses of the three `…_counterexample`s above, through the pipeline with the masking -/
+theorem strlit_examples :
+    parseWhen (fun x => Except.ok (unmask (lits "x == \"a && b\"".toList) x)) (mask "x == \"a && b\"".toList)
+        = .ok (.single "x == \"a && b\"".toList)
+    ∧ parseWhen (fun x => Except.ok (unmask (lits "x == \"(\" && y == 1".toList) x)) (mask "x == \"(\" && y == 1".toList)
+        = .ok (.and (.single "x == \"(\"".toList) (.single "y == 1".toList))
+    ∧ (statements (mask "Y = \"a;b\";".toList)).map (unmask (lits "Y = \"a;b\";".toList)) = ["Y = \"a;b\"".toList] := by
+  decide +kernel
+
+/-- `note == "go } then (stop && || ;"` — a leaf with every metacharacter in its literal -/
+def exSegs : List Seg := [.code "note == ".toList, .lit '"' "go } then (stop && || ; it's".toList]
+
+theorem exSegs_ok : ∀ x ∈ exSegs, x.Ok := by
+  intro x hx
+  simp only [exSegs, List.mem_cons, List.mem_nil_iff, or_false] at hx
+  rcases hx with rfl | rfl
+  · exact ⟨by intro c hc; revert c; decide, by intro c hc; revert c; decide⟩
+  · exact ⟨Or.inl rfl, by intro c hc; revert c; decide⟩
+
+theorem exSegs_opaque : OpaqueLeaf (renderSegs exSegs) :=
+  ⟨exSegs, exSegs_ok, rfl,
+    ⟨by decide +kernel, by decide +kernel, by decide +kernel, by decide +kernel, by decide +kernel, by decide +kernel,
+     by decide +kernel, by decide +kernel⟩⟩
+
+/-- `note == "go } then (stop && || ; it's" &&\n!note == "go } …"` -/
+def exTreeO : LT := .and (.leaf (renderSegs exSegs)) [' '] ['\n'] (.not [] (.leaf (renderSegs exSegs)))
+
+example : exTreeO.WFo := ⟨by decide, by decide, exSegs_opaque, ⟨Ws.nil, rfl, exSegs_opaque⟩, rfl, rfl⟩
+
+example : parseWhen (fun x => Except.ok (unmask (lits exTreeO.render) x)) (mask exTreeO.render)
+    = .ok (.and (.single "note == \"go } then (stop && || ; it's\"".toList)
+                (.not (.single "note == \"go } then (stop && || ; it's\"".toList))) := by decide +kernel
+
+/-- `msg = "a;b += c = d, e {"` as a statement -/
+def exStmtSegs : List Seg := [.code "msg = ".toList, .lit '"' "a;b += c = d, e {".toList]
+
+example : OpaqueStmt (renderSegs exStmtSegs) :=
+  ⟨exStmtSegs, by
+      intro x hx
+      simp only [exStmtSegs, List.mem_cons, List.mem_nil_iff, or_false] at hx
+      rcases hx with rfl | rfl
+      · exact ⟨by intro c hc; revert c; decide, by intro c hc; revert c; decide⟩
+      · exact ⟨Or.inl rfl, by intro c hc; revert c; decide⟩,
+    rfl, by decide +kernel, by decide +kernel⟩
 
 def exLeaf1 : Str := "User.Age >= 18".toList
 def exLeaf2 : Str := "f(a, b) > 2".toList
 def exLeaf3 : Str := "User.Country == \"US\"".toList
 
-instance (s : Str) : Decidable (Edges s) := by unfold Edges; infer_instance
 
 theorem exLeaf1_ok : LeafOk exLeaf1 := ⟨by decide +kernel, by decide +kernel, by decide +kernel, by decide +kernel, by decide +kernel, by decide +kernel, by decide +kernel, by decide +kernel⟩
 theorem exLeaf2_ok : LeafOk exLeaf2 := ⟨by decide +kernel, by decide +kernel, by decide +kernel, by decide +kernel, by decide +kernel, by decide +kernel, by decide +kernel, by decide +kernel⟩
